@@ -28,7 +28,7 @@ REQUIRED_MONITORS = ["matches_documented_rotation", "rotation_invariance", "inve
 REQUIRED_BUCKETS = {"quick": ["jitter:0", "jitter:1", "jitter:2", "jitter:3", "size_pd:0", "size_pd:>=2",
                               "angle:theta0", "angle:theta90", "angle:theta180", "angle:near360", "asymmetric",
                               "symmetric", "lane:asan", "angle_without_loop_slot",
-                              "mesh>100:size-innermost", "jitter:one-point-with-width", "sequence:one-angle-changed", "over-budget:refused", "entry:sasview-shared-disperser-object", "entry:sasview-tabulated-jitter"]}
+                              "mesh>100:size-innermost", "jitter:one-point-with-width", "sequence:one-angle-changed", "over-budget:refused", "entry:sasview-shared-disperser-object", "entry:sasview-tabulated-jitter", "smeared-2d:pixel-on-axis"]}
 REQUIRED_BUCKETS["thorough"] = REQUIRED_BUCKETS["quick"]
 
 
@@ -268,6 +268,24 @@ def run_oriented(case, rec):
     I2 = np.asarray(direct_model.call_kernel(k2, p2), float)
     rec.check("rotation_invariance", core.close(I2, I, 1e-8, 1e-10*I0),
               dict(ctx, delta=delta, rotated=I2, original=I, max_rel_err=core.maxrel(I2, I, 1e-10*I0)))
+    # (i-b) the same for resolution-smeared 2-D data: the pixels (one of them exactly on the qy axis) and phi turned by exactly
+    # 90 degrees; the widths are radial / tangential, so the smeared pattern turns with them
+    if k % 6 == 3 and not over:
+        from sasmodels import data as sdata
+        qa_ = np.hypot(qx, qy)
+        px, py = qx.copy(), qy.copy()
+        px[0], py[0] = 0.0, float(qa_[0])
+        dq_ = 0.04*np.hypot(px, py)
+        dA = sdata.Data2D(x=px.copy(), y=py.copy(), dx=dq_.copy(), dy=dq_.copy())
+        dB = sdata.Data2D(x=-py.copy(), y=px.copy(), dx=dq_.copy(), dy=dq_.copy())
+        ps_ = {kk: vv for kk, vv in pars.items()}
+        IA = np.asarray(direct_model.DirectModel(dA, model, cutoff=0.0)(**ps_), float)
+        IB = np.asarray(direct_model.DirectModel(dB, model, cutoff=0.0)(**dict(ps_, phi=ps_["phi"] + 90.0)), float)
+        oks_ = len(IA) == len(IB) == len(px) and core.close(IB, IA, 1e-7, 1e-9*I0)
+        rec.check("rotation_invariance", oks_,
+                  None if oks_ else dict(ctx, note="resolution-smeared 2-D data, pixels and phi turned by 90 degrees", pixels_x=px, pixels_y=py,
+                                         smeared=IA, smeared_after_turn=IB))
+        rec.bucket("smeared-2d:pixel-on-axis")
     # (ii) inversion
     k3 = model.make_kernel([-qx, -qy])
     I3 = np.asarray(direct_model.call_kernel(k3, dict(pars)), float)
